@@ -94,19 +94,27 @@ def w_steps(t):
 
 
 def d_steps(t):
-    i, n = 3, len(t)
+    nfd = t[3]
+    i, n = 4 + nfd, len(t)
     while i < n:
         k = t[i]
         if k == 1:
-            st = ("DialPeer", t[i + 1], "sim" if t[i + 2] else "-", "forcedirect" if t[i + 3] else "-"); i += 4
+            cnt = t[i + 5]
+            rk = [(t[i + 6 + 2 * a], t[i + 7 + 2 * a]) for a in range(cnt)]
+            st = ("DialPeer", t[i + 1], "sim" if t[i + 2] else "-", "forcedirect" if t[i + 3] else "-",
+                  rk if t[i + 4] else "addrsForDial-error"); i += 6 + 2 * cnt
         elif k == 2:
             st = ("advance_ns", t[i + 1]); i += 2
         elif k == 3:
-            st = ("transport-dial-ends", t[i + 1], "conn" if t[i + 2] == 1 else "fail"); i += 3
+            st = ("transport-dial-ends", t[i + 1], "conn" if t[i + 2] == 1 else "fail"); i += 4
         elif k == 4:
             st = ("cancel-caller", t[i + 1]); i += 2
         elif k == 5:
             st = ("backoff", t[i + 1]); i += 2
+        elif k == 6:
+            st = ("gater-parks-next-request-handling",); i += 1
+        elif k == 7:
+            st = ("gater-releases",); i += 1
         else:
             return
         nr = t[i]; i += 1
@@ -116,6 +124,29 @@ def d_steps(t):
         f = t[i:i + 7]; i += 7
         yield st, {"returns": rs, "dial_starts": ss, "dial_ends": es, "inflightFD": f[0], "inflight": f[1],
                    "fdConsuming": f[2], "activePerPeer": f[3], "activeDials": f[4], "goroutines_left": f[5], "waiting": f[6]}
+
+
+def canon_d(t, upto):
+    out = []
+    for idx, (st, _) in enumerate(d_steps(t)):
+        if idx > upto:
+            break
+        k = st[0]
+        if k == "DialPeer":
+            out.append("call%d.%s.%s.%s" % (st[1], st[2], st[3], "".join("a%d:%d" % x for x in st[4]) if isinstance(st[4], list) else "E"))
+        elif k == "advance_ns":
+            out.append("t%d" % st[1])
+        elif k == "transport-dial-ends":
+            out.append("end%d.%s" % (st[1], st[2]))
+        elif k == "cancel-caller":
+            out.append("cancel%d" % st[1])
+        elif k == "backoff":
+            out.append("bo%d" % st[1])
+        elif k.startswith("gater-parks"):
+            out.append("park")
+        else:
+            out.append("release")
+    return " ".join(out)
 
 
 def describe(t):
@@ -238,6 +269,9 @@ def canon_lim(t, upto):
     return " ".join(out)
 
 
+DCLAUSE = {1: "return-not-exactly-once/wrong-peer/unjustified-conn", 2: "cancelled-caller-not-released", 3: "address-handed-to-transport-twice",
+           4: "caps", 5: "cancel-of-one-caller-ended-shared-dials", 6: "residue-after-all-returned", 7: "caller-count",
+           8: "caller-never-returned", 9: "caller-waits-with-no-dial-in-flight(eligible-address-never-attempted)"}
 WCLAUSE = {1: "request-answered-twice", 2: "address-handed-to-transport-twice", 3: "response-not-justified",
            4: "request-unanswered-at-quiescence", 5: "eligible-address-not-attempted"}
 CLAUSE = {1: "caps", 2: "residue", 3: "live-job-not-attempted", 4: "dial-invoked-more-than-once"}
@@ -253,8 +287,11 @@ def key(tag, toks, d):
         return "C05:worker:%s:%s" % (WCLAUSE.get(d[2], str(d[2])) if len(d) > 2 else "?", canon_w(toks, step))
     if toks and toks[0] == 4:
         return "C05:ranker:%s:%s" % (d, " ".join(map(str, toks[:120])))
-    if toks and toks[0] in (3, 5):
-        return "C05:%s:%s:%s" % ({3: "sync", 5: "dialpeer"}[toks[0]], d, " ".join(map(str, toks[:160])))
+    if toks and toks[0] == 5:
+        return "C05:dialpeer:%s:fd=%d:pp=%d:%s" % (DCLAUSE.get(d[2], str(d[2])) if len(d) > 2 else "?", toks[1], toks[2],
+                                                   canon_d(toks, step))
+    if toks and toks[0] == 3:
+        return "C05:sync:%s:%s" % (d, " ".join(map(str, toks[:160])))
     return "C05:%s:%s" % (toks[:1], d)
 
 
@@ -264,8 +301,7 @@ def what(tag, toks, d):
     clause = (WCLAUSE if kind == 2 else CLAUSE).get(d[2], str(d[2])) if len(d) > 2 else "?"
     comp = {1: "dial limiter", 2: "dial worker", 3: "dialSync", 4: "DefaultDialRanker", 5: "Swarm.DialPeer"}.get(kind, "?")
     if kind == 5:
-        clause = {1: "return-not-exactly-once/wrong-peer/unjustified-conn", 2: "cancelled-caller-not-released", 3: "address-handed-to-transport-twice",
-                  4: "caps", 5: "cancel-of-one-caller-ended-shared-dials", 6: "residue-after-all-returned", 7: "caller-count", 8: "caller-never-returned"}.get(d[2] if len(d) > 2 else 0, "?")
+        clause = DCLAUSE.get(d[2] if len(d) > 2 else 0, "?")
     if kind == 3:
         clause = {1: "caller-return-not-exactly-once-or-not-prompt", 2: "refcount/worker/shared-context", 3: "reqch-closed-before-context-cancelled"}.get(d[2] if len(d) > 2 else 0, "?")
     if kind == 4:
